@@ -36,6 +36,9 @@ CHECKS = {
  "C05": dict(level="model_checking", technique="explicit-state BFS over event histories of a real routing.Core per routing algorithm (replay from scratch, state matching on observable state), invariants evaluated in every state",
    text="For each routing algorithm (epidemic, spray, binary_spray, prophet, dtlsr, sensor-mule) a real Core with mock convergence senders and a mock agent is driven under the virtual clock through every event history up to a depth bound (quick 3-4, thorough 5) from the initial state and from two non-initial roots; 22-event alphabet (submission via SendBundle and via the agent path, clock-less and aged bundles, reception with previous node, peers up/down, send outcomes, retry tick, store-cleaning tick, clock advances around the lifetime, restart). In every reached state: an accepted, unexpired, never successfully transmitted bundle is in the store and pending; a held bundle is handed to its destination as soon as that is a connected peer; under epidemic every newly connected peer lacking the bundle is offered it; cleaning never removes an unexpired bundle; all of it also after restart.",
    note="Trusted: routing/cla bridges (single calls), vtime, serialised per-peer sender goroutines of Core.forward for deterministic replays (their interleavings: schedule exploration, see DESIGN). Cron wiring of the retry/cleaning jobs checked separately.", design="3/C05"),
+ "C13": dict(level="model_checking", technique="explicit-state BFS over event histories of a real routing.Core per routing algorithm with the successful-transmission relation in the state; safety invariant on every send",
+   text="Per algorithm (epidemic, prophet, spray, binary_spray, dtlsr incl. broadcast bundles, sensor-mule): BFS over histories of receptions with each relay as previous node (incl. duplicate receptions), local submissions, relays up/down, send outcome switches, retry ticks and restarts, from the initial state and from roots with relays connected (one failing; prophet: with summary vectors). Every send is judged: never to the bundle's previous node, never to a peer that already received it successfully while the node remembers it (restart carve-out for the in-memory spray variants); under epidemic a retry offers the bundle again to every connected peer that lacks it (a failed peer is eligible again).",
+   note="Trusted: as C05. Sends to the bundle's destination node are direct delivery, not an algorithm choice, and are not judged here.", design="3/C13"),
 }
 NA_REASON = "check not built yet in this round (planned in DESIGN.md section 3)"
 
